@@ -23,7 +23,20 @@ After every operation:
      ``Session.identity_map`` (doc/build/orm/session_state_management.rst
      "Session Referencing Behavior").
 
-Mutations caught: see MUTATIONS at the end of this docstring.
+Mutations caught (private copy, `VF_REPO=/tmp/wt-orm1 ./check C48`):
+ * state.py `_modified_event`: `_strong_obj` not set for collection changes
+   (`if self.session_id and not collection`) -> "modified object with no
+   application reference was not retained by the session"
+ * state.py `_modified_event`: `_strong_obj` set only for pending objects ->
+   same signature (scalar change lost after dropref)
+ * session.py `_delete_impl`: `self._deleted[state] = True` instead of the
+   object (no strong reference to an object marked for deletion) -> "outcome
+   differs from the run that kept its references"
+ * state.py `_commit_all_states`: `state._strong_obj = None` dropped (nothing
+   is released after a flush) -> "unmodified persistent object without
+   references was not released by gc"
+ * state.py `_cleanup`: `instance_dict._fast_discard(self)` dropped (dead
+   objects stay in the identity map) -> same signature
 """
 from __future__ import annotations
 
@@ -265,7 +278,7 @@ def shards(tier, seed):
     return [None]
 
 
-SHARD_TIMEOUT = dict(quick=1500, thorough=7200)
+SHARD_TIMEOUT = dict(quick=3600, thorough=6 * 3600)
 WARM = [
     ("get", "Parent", 1), ("get", "Child", 1), ("set", "b1", "name", "w"), ("append", "b1", "children", "c2"), ("flush",),
     ("remove", "b1", "children", "b2"), ("begin_nested",), ("delete", "b2"), ("sp_commit",), ("expire_all",), ("commit",), ("rollback",),
